@@ -1035,11 +1035,13 @@ func (s *scanner) ScanBytes(accept func(b byte) bool) error {
 		if err == io.EOF && !empty {
 			return nil
 		}
-		if s.used == 0 {
-			if err == nil {
-				err = io.EOF
-			}
+		if err != nil {
+			// a latched source error: refill has not touched the buffer,
+			// looping would never end
 			return err
+		}
+		if s.used == 0 {
+			return io.EOF
 		}
 	}
 }
